@@ -669,8 +669,23 @@ def gen_empty(L, K, rng):
             g.lines.append("observe 0")
         else:
             g.lines.append("junk %d" % rng.choice([0, 85, 170, 255]))
+    # copying the empty vector over another vector - of the same or another capacity, with other
+    # fixed sizes and byte budget, holding elements or not (seeded change C18d)
+    if rng.random() < 0.5:
+        sv = g.slots[0]
+        g.op_mkvec(2, cap=sv.cap if rng.random() < 0.6 else None,
+                   fixed=[rng.choice([0, 1, 2, 3, 4, 7]) for _ in range(nfixed(L))])
+        for _ in range(rng.choice([0, 0, 1, 2])):
+            g.op_emplace(2)
+        dv = g.slots[2]
+        c = sv.clone()
+        c.aid = sv.aid if K[0] else dv.aid
+        c.null = False
+        g.slots[2] = c
+        g.lines.append("copyassign 2 0")
+        g.stat("copyassign-from-empty" + ("-same-capacity" if dv.cap == sv.cap else ""))
     # ... and then it behaves like any other vector
-    for s in (0, 1):
+    for s in (0, 1, 2):
         v = g.slots[s]
         if v is None:
             continue
